@@ -82,7 +82,7 @@ void h_step(void)
 static int vf_cmp_key(const void * a, const void * b, void * p)
 {
     (void)p;
-    return ((const struct vf_el *)a)->key - ((const struct vf_el *)b)->key;
+    return vf_signmag(((const struct vf_el *)a)->key > ((const struct vf_el *)b)->key, ((const struct vf_el *)a)->key < ((const struct vf_el *)b)->key);
 }
 
 /* the ring equals ref[0..n) front to back, and its mirror back to front */
